@@ -144,7 +144,9 @@ def install():
 def plan(tier, rng, sl, nslices, stats):
     cfg = TIERS[tier]
     for i in range(cfg["random"]):
-        if i % 6 == 5:
+        if i % 40 == 7:
+            yield {"kind": "pda", "p": gpda.many_states_case(rng), "light": True}
+        elif i % 6 == 5:
             yield {"kind": "pda", "p": gpda.push_chain_case(rng)}
         elif i % 3 == 0:
             yield {"kind": "cfg", "g": gcfg.random_case(rng, max_vars=3, max_terms=2, max_prods=5, max_body=3)}
